@@ -5,13 +5,17 @@
 package main
 
 import (
+	"bytes"
 	"encoding/hex"
 	"encoding/json"
 	"flag"
 	"fmt"
 	"os"
+	"runtime"
 	"sort"
+	"strconv"
 	"strings"
+	"sync"
 	"time"
 
 	"google.golang.org/protobuf/proto"
@@ -53,9 +57,16 @@ type Cfg struct {
 // Op is one step: K = "load" (Cfg nil: Load(nil)) or "mutate" (the caller
 // overwrites, in place, the message it handed to the last accepted Load or to
 // NewConfigWithBase with the content of Cfg).
+//
+// K = "par": two overlapping Loads under a forced schedule.  Load(Cfg) is
+// started on its own goroutine and parked inside its first handler call (if it
+// makes any); Load(Cfg2) is then started on a second goroutine and watched
+// until it has returned or sits in c.mu.Lock(); then the first call is
+// released and both loads run to completion.
 type Op struct {
-	K   string `json:"k"`
-	Cfg *Cfg   `json:"cfg"`
+	K    string `json:"k"`
+	Cfg  *Cfg   `json:"cfg"`
+	Cfg2 *Cfg   `json:"cfg2,omitempty"`
 }
 
 // Case is what is written to cases_k.json and read back for replay.
@@ -92,6 +103,7 @@ type PCall struct {
 	Name string `json:"name"`
 	R    PR     `json:"r"`
 	T    PT     `json:"t"`
+	By   int    `json:"by,omitempty"` // par: 0 = made by Load(Cfg), 1 = by Load(Cfg2)
 }
 
 // PReq / PTgt are map bindings.
@@ -115,8 +127,11 @@ type PCfg struct {
 
 // Obs is the projected outcome of one step.
 type Obs struct {
-	Kind  string  `json:"kind"` // load cur panic hang
+	Kind  string  `json:"kind"` // load cur par panic hang
 	Err   bool    `json:"err,omitempty"`
+	Err2  bool    `json:"err2,omitempty"`  // par: result of Load(Cfg2)
+	Early bool    `json:"early,omitempty"` // par: Load(Cfg2) returned while Load(Cfg) was parked in a handler
+	Note  string  `json:"note,omitempty"`
 	Calls []PCall `json:"calls,omitempty"`
 	Cur   PCfg    `json:"cur"`
 	Msg   string  `json:"msg,omitempty"`
@@ -257,21 +272,214 @@ func projCfg(c *pb.Configuration) PCfg {
 // Running one case against the real code
 
 type runner struct {
+	mu    sync.Mutex
 	calls []PCall
+	// par: goroutine id -> tag; the first call made by the goroutine tagged 0
+	// is parked until release is closed
+	tags    map[int64]int
+	park    bool
+	entered chan struct{}
+	release chan struct{}
+}
+
+// goid returns the id of the calling goroutine (from its stack header).
+func goid() int64 {
+	var buf [64]byte
+	n := runtime.Stack(buf[:], false)
+	f := bytes.Fields(buf[:n])
+	if len(f) < 2 {
+		return -1
+	}
+	id, _ := strconv.ParseInt(string(f[1]), 10, 64)
+	return id
+}
+
+func (r *runner) record(c PCall) {
+	r.mu.Lock()
+	parkNow := false
+	if r.tags != nil {
+		c.By = r.tags[goid()]
+		if r.park && c.By == 0 {
+			r.park = false
+			parkNow = true
+		}
+	}
+	r.calls = append(r.calls, c)
+	r.mu.Unlock()
+	if parkNow {
+		close(r.entered)
+		<-r.release
+	}
+}
+
+func (r *runner) take() []PCall {
+	r.mu.Lock()
+	defer r.mu.Unlock()
+	c := r.calls
+	r.calls = nil
+	return c
 }
 
 func (r *runner) handler() target.Handler {
 	return target.Handler{
 		Add: func(u target.Update) {
-			r.calls = append(r.calls, PCall{Kind: "add", Name: u.Name, R: projReq(u.Request), T: projTgt(u.Target)})
+			r.record(PCall{Kind: "add", Name: u.Name, R: projReq(u.Request), T: projTgt(u.Target)})
 		},
 		Update: func(u target.Update) {
-			r.calls = append(r.calls, PCall{Kind: "update", Name: u.Name, R: projReq(u.Request), T: projTgt(u.Target)})
+			r.record(PCall{Kind: "update", Name: u.Name, R: projReq(u.Request), T: projTgt(u.Target)})
 		},
 		Delete: func(name string) {
-			r.calls = append(r.calls, PCall{Kind: "delete", Name: name})
+			r.record(PCall{Kind: "delete", Name: name})
 		},
 	}
+}
+
+// blockedInLoad reports whether goroutine id is parked on a mutex inside
+// target.(*Config).Load itself (not inside a handler called from it).
+func blockedInLoad(id int64) bool {
+	buf := make([]byte, 1<<16)
+	for {
+		n := runtime.Stack(buf, true)
+		if n < len(buf) {
+			buf = buf[:n]
+			break
+		}
+		buf = make([]byte, 2*len(buf))
+	}
+	hdr := []byte("goroutine " + strconv.FormatInt(id, 10) + " [")
+	for _, blk := range bytes.Split(buf, []byte("\n\n")) {
+		if !bytes.HasPrefix(blk, hdr) {
+			continue
+		}
+		line := blk
+		if i := bytes.IndexByte(blk, '\n'); i >= 0 {
+			line = blk[:i]
+		}
+		state := string(line[len(hdr):])
+		if !(strings.HasPrefix(state, "sync.Mutex.Lock") || strings.HasPrefix(state, "sync.RWMutex") || strings.HasPrefix(state, "semacquire")) {
+			return false
+		}
+		i := bytes.Index(blk, []byte("target.(*Config).Load"))
+		if i < 0 {
+			return false
+		}
+		// a harness (handler) frame above Load means the goroutine waits inside a handler
+		return !bytes.Contains(blk[:i], []byte("zz_verif"))
+	}
+	return false
+}
+
+// parStep runs the forced two-thread schedule.
+func parStep(r *runner, c *target.Config, held **pb.Configuration, o Op) Obs {
+	ma, mb := mkCfg(o.Cfg), mkCfg(o.Cfg2)
+	r.take()
+	r.mu.Lock()
+	r.tags = map[int64]int{}
+	r.park = true
+	r.entered = make(chan struct{})
+	r.release = make(chan struct{})
+	r.mu.Unlock()
+	defer func() {
+		r.mu.Lock()
+		r.tags = nil
+		r.park = false
+		r.mu.Unlock()
+	}()
+
+	type res struct {
+		err   error
+		panic interface{}
+	}
+	start := func(tag int, m *pb.Configuration, idc chan int64) chan res {
+		done := make(chan res, 1)
+		go func() {
+			id := goid()
+			r.mu.Lock()
+			r.tags[id] = tag
+			r.mu.Unlock()
+			idc <- id
+			var out res
+			defer func() {
+				if p := recover(); p != nil {
+					out.panic = p
+				}
+				done <- out
+			}()
+			out.err = c.Load(m)
+		}()
+		return done
+	}
+	note := ""
+	ida, idb := make(chan int64, 1), make(chan int64, 1)
+	doneA := start(0, ma, ida)
+	<-ida
+	var ra, rb res
+	var doneB chan res
+	aDone, bDone, early := false, false, false
+	select {
+	case ra = <-doneA:
+		aDone = true
+	case <-r.entered:
+		// Load a is parked inside its first handler call, holding whatever it holds
+		doneB = start(1, mb, idb)
+		bid := <-idb
+		deadline := time.Now().Add(15 * time.Second)
+	watch:
+		for {
+			select {
+			case rb = <-doneB:
+				bDone, early = true, true
+				break watch
+			default:
+			}
+			if blockedInLoad(bid) {
+				break watch
+			}
+			if time.Now().After(deadline) {
+				// neither returned nor visibly blocked: treated as blocked (this can
+				// only hide a defect, never invent one)
+				note = "watch-timeout"
+				break watch
+			}
+			time.Sleep(200 * time.Microsecond)
+		}
+		close(r.release)
+	case <-time.After(20 * time.Second):
+		return Obs{Kind: "hang", Msg: "first Load neither returned nor called a handler"}
+	}
+	if !aDone {
+		select {
+		case ra = <-doneA:
+		case <-time.After(20 * time.Second):
+			return Obs{Kind: "hang", Msg: "first Load did not return after release"}
+		}
+	}
+	r.mu.Lock()
+	r.park = false
+	r.mu.Unlock()
+	if doneB == nil {
+		doneB = start(1, mb, idb)
+		<-idb
+	}
+	if !bDone {
+		select {
+		case rb = <-doneB:
+		case <-time.After(20 * time.Second):
+			return Obs{Kind: "hang", Msg: "second Load did not return"}
+		}
+	}
+	if ra.panic != nil || rb.panic != nil {
+		return Obs{Kind: "panic", Msg: fmt.Sprint(ra.panic, rb.panic)}
+	}
+	// the message the Config may still refer to: the one of the load that took effect last
+	if ra.err == nil {
+		*held = ma
+	}
+	if rb.err == nil {
+		*held = mb
+	}
+	return Obs{Kind: "par", Err: ra.err != nil, Err2: rb.err != nil, Early: early, Calls: r.take(),
+		Cur: projCfg(c.Current()), Note: note}
 }
 
 func overwrite(dst, src *pb.Configuration) {
@@ -290,24 +498,24 @@ func step(r *runner, c *target.Config, held **pb.Configuration, o Op) (res Obs) 
 	}()
 	switch o.K {
 	case "load":
-		r.calls = nil
+		r.take()
 		m := mkCfg(o.Cfg)
 		err := c.Load(m)
 		if err == nil {
 			*held = m
 		}
-		calls := r.calls
-		r.calls = nil
-		return Obs{Kind: "load", Err: err != nil, Calls: calls, Cur: projCfg(c.Current())}
+		return Obs{Kind: "load", Err: err != nil, Calls: r.take(), Cur: projCfg(c.Current())}
 	case "mutate":
-		r.calls = nil
+		r.take()
 		if *held != nil && o.Cfg != nil {
 			overwrite(*held, mkCfg(o.Cfg))
 		}
-		if len(r.calls) != 0 {
+		if len(r.take()) != 0 {
 			panic("handler called without a Load")
 		}
 		return Obs{Kind: "cur", Cur: projCfg(c.Current())}
+	case "par":
+		return parStep(r, c, held, o)
 	}
 	panic("unknown op " + o.K)
 }
@@ -362,7 +570,7 @@ func runCaseInner(c *Case) {
 		c.BaseErr = true
 		return
 	}
-	if len(r.calls) != 0 {
+	if len(r.take()) != 0 {
 		// a handler call during construction: make the first step disagree
 		c.Cur0 = &PCfg{Rev: -424242}
 	}
@@ -432,6 +640,9 @@ func callTerm(n *vh.Names, c PCall) string {
 }
 
 func opTerm(n *vh.Names, o Op) string {
+	if o.K == "par" {
+		return fmt.Sprintf("OPar %s %s", pcfgTerm(n, inCfg(o.Cfg)), pcfgTerm(n, inCfg(o.Cfg2)))
+	}
 	if o.K == "mutate" {
 		if o.Cfg == nil {
 			return "OLoad None" // not generated; a mutate without content is nothing
@@ -451,6 +662,12 @@ func obsTerm(n *vh.Names, r Obs) string {
 		return fmt.Sprintf("RLoad %s %s %s", vh.Bool(r.Err), vh.List(cs), pcfgTerm(n, r.Cur))
 	case "cur":
 		return "RCur " + pcfgTerm(n, r.Cur)
+	case "par":
+		cs := make([]string, len(r.Calls))
+		for i, c := range r.Calls {
+			cs[i] = fmt.Sprintf("(%s, %s)", vh.Nat(c.By), callTerm(n, c))
+		}
+		return fmt.Sprintf("RPar %s %s %s %s %s", vh.Bool(r.Early), vh.List(cs), vh.Bool(r.Err), vh.Bool(r.Err2), pcfgTerm(n, r.Cur))
 	}
 	return "RPanic"
 }
@@ -806,6 +1023,71 @@ func randHistory(r *vh.Rand, h *vh.Meta, mutate bool) Case {
 	return c
 }
 
+// parCase: optionally one sequential load, then two overlapping loads (the
+// second usually an edit of the first with the next revision), optionally one
+// more sequential load.
+func parCase(r *vh.Rand, h *vh.Meta) Case {
+	c := Case{Family: "concurrent"}
+	var w *Cfg
+	if r.Chance(2, 3) {
+		w = randValid(r, 1)
+		c.Ops = append(c.Ops, Op{K: "load", Cfg: cloneCfg(w)})
+	}
+	mk := func(from *Cfg, rev int64, edits int) *Cfg {
+		var n *Cfg
+		if from == nil {
+			n = randValid(r, rev)
+		} else {
+			n = cloneCfg(from)
+			for j := 0; j < edits; j++ {
+				h.Hist("par:" + validEdit(r, n))
+			}
+		}
+		n.Rev = rev
+		return n
+	}
+	base := int64(1)
+	if w != nil {
+		base = w.Rev
+	}
+	a := mk(w, base+1, 1+r.Intn(3))
+	switch r.Pick(8, 1, 1) {
+	case 1:
+		h.Hist("par:first-" + invalidEdit(r, a))
+	case 2:
+		a.Rev = base
+		h.Hist("par:first-stale")
+	}
+	var b *Cfg
+	src := a
+	if r.Chance(1, 3) && w != nil {
+		src = w
+	}
+	b = mk(src, base+2, r.Intn(4))
+	switch r.Pick(12, 2, 2, 2, 1) {
+	case 1:
+		b.Rev = base + 1 // equal to the first load's
+		h.Hist("par:second-rev-equal")
+	case 2:
+		b.Rev = base
+		h.Hist("par:second-rev-lower")
+	case 3:
+		h.Hist("par:second-" + invalidEdit(r, b))
+	case 4:
+		b = nil
+		h.Hist("par:second-nil")
+	}
+	c.Ops = append(c.Ops, Op{K: "par", Cfg: a, Cfg2: b})
+	if r.Chance(1, 2) {
+		src := a
+		if b != nil && r.Chance(1, 2) {
+			src = b
+		}
+		c.Ops = append(c.Ops, Op{K: "load", Cfg: mk(src, base+3, 1+r.Intn(2))})
+	}
+	return c
+}
+
 // universe of the exhaustive pair family: two target names, two request names
 func pairUniverse(thorough bool) []*Cfg {
 	type topt struct {
@@ -888,6 +1170,22 @@ func nontrivial(c Case) bool {
 			break
 		}
 		r := c.Obs[i]
+		if o.K == "par" && r.Kind == "par" {
+			na, nb := 0, 0
+			for _, cl := range r.Calls {
+				if cl.By == 0 {
+					na++
+				} else {
+					nb++
+				}
+			}
+			if na > 0 && nb > 0 {
+				return true
+			}
+			if !r.Err || !r.Err2 {
+				accepted = true
+			}
+		}
 		if o.K == "load" && r.Kind == "load" {
 			if !r.Err && accepted && len(r.Calls) > 0 {
 				return true
@@ -933,6 +1231,32 @@ func (e *emitter) add(c Case) {
 		switch {
 		case r.Kind == "panic" || r.Kind == "hang":
 			e.meta.Hist(r.Kind)
+		case r.Kind == "par":
+			e.meta.Hist("op:par")
+			na, nb := 0, 0
+			for _, cl := range r.Calls {
+				if cl.By == 0 {
+					na++
+				} else {
+					nb++
+				}
+			}
+			switch {
+			case na == 0:
+				e.meta.Hist("par:first-load-not-parked")
+			case r.Early:
+				e.meta.Hist("par:second-returned-while-first-parked")
+			default:
+				e.meta.Hist("par:second-blocked-while-first-parked")
+			}
+			if r.Err2 {
+				e.meta.Hist("par:second-rejected")
+			} else {
+				e.meta.Hist(fmt.Sprintf("par:second-accepted-calls:%d", nb))
+			}
+			if r.Note != "" {
+				e.meta.Hist("par:" + r.Note)
+			}
 		case o.K == "mutate":
 			e.meta.Hist("op:mutate")
 		case r.Err:
@@ -1005,7 +1329,7 @@ func main() {
 	if f := flag.Lookup("stderrthreshold"); f != nil {
 		f.Value.Set("FATAL")
 	}
-	meta := vh.NewMeta("corpus cases; every ordered pair (A, B) of configurations over two target names x two request names (target: absent / ->r1 addr a / ->r1 addr b / ->r2 addr a; request: absent / content 1 / content 2) loaded as revisions 1 and 2 (quick: A valid; thorough: all A over a 225-configuration universe, for valid A also revisions 2-then-2 and 2-then-1, plus A as base); every ordered pair over one request name whose value is absent / nil pointer / empty message / a subscription and two targets using it or absent (256); seeded random histories of 2..7 loads evolving one configuration by 0..3 edits per load (add/remove/edit target, re-point, edit/rename/swap/add/remove request, nil request pointer, other fields), invalid variants, nil loads, revision deltas {+1,0,-1,+5,-7,+-2^40}, with and without a (valid/invalid/nil) base; in every fourth history the caller also edits, in place, the message it loaded last (and often re-loads it). distinct = distinct (base, operations); non-trivial = some accepted load on a non-nil current configuration that produced at least one handler call")
+	meta := vh.NewMeta("corpus cases; every ordered pair (A, B) of configurations over two target names x two request names (target: absent / ->r1 addr a / ->r1 addr b / ->r2 addr a; request: absent / content 1 / content 2) loaded as revisions 1 and 2 (quick: A valid; thorough: all A over a 225-configuration universe, for valid A also revisions 2-then-2 and 2-then-1, plus A as base); every ordered pair over one request name whose value is absent / nil pointer / empty message / a subscription and two targets using it or absent (256); seeded random histories of 2..7 loads evolving one configuration by 0..3 edits per load (add/remove/edit target, re-point, edit/rename/swap/add/remove request, nil request pointer, other fields), invalid variants, nil loads, revision deltas {+1,0,-1,+5,-7,+-2^40}, with and without a (valid/invalid/nil) base; in every fourth history the caller also edits, in place, the message it loaded last (and often re-loads it); 'concurrent' cases: two overlapping Loads under a forced schedule (the first parked inside its first handler call while the second is issued from another goroutine and watched until it returned or sits in c.mu.Lock()), over every ordered pair of the 16-configuration nil-pointer universe as revisions (1,2) and (2,1) and over seeded random pairs (second load an edit of the first / of the base, revision above / equal / below, invalid, nil) with optional sequential loads before and after. distinct = distinct (base, operations); non-trivial = some accepted load on a non-nil current configuration that produced at least one handler call")
 	e := &emitter{dir: o.Out, cf: vh.NewCaseFile(), meta: meta, limit: 1500}
 
 	if o.Replay != "" {
@@ -1075,6 +1399,17 @@ func main() {
 			e.add(Case{Family: "pairs-nil", Ops: []Op{{K: "load", Cfg: ca}, {K: "load", Cfg: cb}}})
 		}
 	}
+	// two overlapping loads: every ordered pair of the nil-pointer universe, as
+	// revisions (1, 2) and (2, 1)
+	for _, a := range nu {
+		for _, b := range nu {
+			for _, rv := range [][2]int64{{1, 2}, {2, 1}} {
+				ca, cb := cloneCfg(a), cloneCfg(b)
+				ca.Rev, cb.Rev = rv[0], rv[1]
+				e.add(Case{Family: "concurrent-pairs", Ops: []Op{{K: "par", Cfg: ca, Cfg2: cb}}})
+			}
+		}
+	}
 	meta.Extra["pair_universe_size"] = len(uni)
 	meta.Extra["pairs"] = npairs
 
@@ -1088,6 +1423,13 @@ func main() {
 	// place (since b7e5099 that must not reach the Config)
 	for i := 0; i < nrand; i++ {
 		e.add(randHistory(r.Fork(), meta, i%4 == 3))
+	}
+	npar := 700
+	if o.Thorough() {
+		npar = 6000
+	}
+	for i := 0; i < npar; i++ {
+		e.add(parCase(r.Fork(), meta))
 	}
 	e.flush()
 	meta.Exhaustive = false
